@@ -644,14 +644,11 @@ def translations():
 
     # ================= perform_step + tail of update_orientations =================
     def mk_update(n):
-        def update_n(chi, prev, y):
+        def update_n(chi, pars, prev, y):
             prev_o = prev.view(GArr)
             _, prev_f = const_prev(n)
             m, decoy = mk_mineral_hist(n, prev_o, prev_f)
-            params = {"phase_assemblage": (core.MineralPhase.olivine,), "phase_fractions": [CONST(1)],
-                      "stress_exponent": CONST(1), "deformation_exponent": CONST(1),
-                      "nucleation_efficiency": CONST(1), "gbm_mobility": CONST(1),
-                      "gbs_threshold": chi}
+            params = plain_params(chi, [pars[i] for i in range(5)])
             ysym = y.copy().view(GArr)          # LSODA owns its state vector
             made = []
 
@@ -683,10 +680,16 @@ def translations():
     # Everything below runs the REAL Mineral.update_orientations / update_all / __post_init__ with a
     # stand-in for scipy's LSODA (and for scipy's Rotation); what the stand-in is constructed with, and
     # what the method does with the vectors the stand-in "integrates", is the generated definition.
-    def plain_params(chi):
-        return {"phase_assemblage": (core.MineralPhase.olivine,), "phase_fractions": [CONST(1)],
-                "stress_exponent": CONST(1), "deformation_exponent": CONST(1),
-                "nucleation_efficiency": CONST(1), "gbm_mobility": CONST(1), "gbs_threshold": chi}
+    def plain_params(chi, pars=None):
+        """params dict of a driver trace.  `pars` = symbolic (phase fraction, stress exponent, deformation exponent,
+        nucleation efficiency, boundary mobility): the driver (everything outside eval_rhs) must not depend on them --
+        with the constant 1 for the phase fraction a factor `* phi` is simplified away by the tracer and the seeded
+        change C09e (sliding threshold chi * phi) left the VALUES of the generated update untouched."""
+        if pars is None:
+            pars = [CONST(1)] * 5
+        return {"phase_assemblage": (core.MineralPhase.olivine,), "phase_fractions": [pars[0]],
+                "stress_exponent": pars[1], "deformation_exponent": pars[2],
+                "nucleation_efficiency": pars[3], "gbm_mobility": pars[4], "gbs_threshold": chi}
 
     def zero_L(t, x):
         return _garr(_np.zeros((3, 3)))
@@ -716,7 +719,7 @@ def translations():
 
     # ---- LSODA's constructor arguments: (t0, y0, t_bound, atol, rtol, first_step)
     def mk_lsoda_args(n):
-        def lsoda_args_n(regime, phase, fabric, Fd, prev_o, prev_f, t0, t1):
+        def lsoda_args_n(regime, phase, fabric, pars, Fd, prev_o, prev_f, t0, t1):
             po, pf, ords = prev_o.view(GArr), prev_f.view(GArr), (regime, phase, fabric)
             m, decoy = mk_mineral_hist(n, po, pf, ords)
             cap = {}
@@ -728,7 +731,8 @@ def translations():
 
             try:
                 with_lsoda(_ArgsLSODA, lambda: m.update_orientations(
-                    plain_params(CONST(0)), Fd.view(GArr), zero_L, (t0, t1, lambda t: None)))
+                    plain_params(pars[5], [pars[i] for i in range(5)]), Fd.view(GArr), zero_L,
+                    (t0, t1, lambda t: None)))
             except _Captured:
                 pass
             if "a" not in cap:
@@ -738,6 +742,61 @@ def translations():
             check_hist(m, decoy, po, pf, grown=False, ords=ords)
             return a[1], a[2], a[3], kw["atol"], kw["rtol"], kw["first_step"]
         return lsoda_args_n
+
+    # ---- the argument validation at the top of update_orientations: `bad` selects a malformed call
+    #         1: get_velocity_gradient not callable     2: the pathline's position entry not callable
+    #         3: pathline with two entries              4: pathline with four entries
+    #      each must raise ValueError BEFORE any user callable is evaluated, before LSODA is constructed, with the
+    #      stored history untouched (verified by the adapter); any other `bad`: the constructor arguments as above
+    def mk_update_args(n):
+        def update_args_n(bad, regime, phase, fabric, pars, Fd, prev_o, prev_f, t0, t1):
+            po, pf, ords = prev_o.view(GArr), prev_f.view(GArr), (regime, phase, fabric)
+            m, decoy = mk_mineral_hist(n, po, pf, ords)
+            cap, calls = {}, []
+
+            class _ArgsLSODA:
+                def __init__(self, *a, **kw):
+                    cap["a"], cap["kw"] = a, kw
+                    raise _Captured()
+
+            def gpos(t):
+                calls.append("position")
+
+            def gL(t, x):
+                calls.append("L")
+                return _garr(_np.zeros((3, 3)))
+
+            L_arg, pathline = gL, (t0, t1, gpos)
+            if bad == 1:
+                L_arg = 0.5
+            elif bad == 2:
+                pathline = (t0, t1, 0.5)
+            elif bad == 3:
+                pathline = (t0, t1)
+            elif bad == 4:
+                pathline = (t0, t1, gpos, None)
+            try:
+                with_lsoda(_ArgsLSODA, lambda: m.update_orientations(
+                    plain_params(pars[5], [pars[i] for i in range(5)]), Fd.view(GArr), L_arg, pathline))
+            except _Captured:
+                pass
+            except ValueError:
+                if "a" in cap:
+                    raise TranslatorUnsupported("ValueError after LSODA had been constructed")
+                if calls:
+                    raise TranslatorUnsupported("user callables are evaluated before the arguments are validated")
+                check_hist(m, decoy, po, pf, grown=False, ords=ords)
+                raise
+            except TypeError as e:
+                raise TranslatorUnsupported(f"a malformed call is not rejected by the argument validation "
+                                            f"(ValueError) but fails later with TypeError: {e}")
+            if "a" not in cap:
+                raise TranslatorUnsupported("update_orientations did not construct LSODA")
+            a, kw = cap["a"], cap["kw"]
+            check_ctor(a, kw, t0, t1)
+            check_hist(m, decoy, po, pf, grown=False, ords=ords)
+            return a[1], a[2], a[3], kw["atol"], kw["rtol"], kw["first_step"]
+        return update_args_n
 
     # ---- the caller's own atol / rtol / first_step replace the defaults; any further keyword
     #      (here max_step, min_step) is handed to LSODA unchanged
@@ -772,7 +831,7 @@ def translations():
     #         otherwise  : every step returns None
     #      On IterationError the adapter verifies that the stored history is untouched.
     def mk_update_loop(n, msteps):
-        def update_loop_n(fail, regime, phase, fabric, chi, prev, *ys):
+        def update_loop_n(fail, regime, phase, fabric, chi, pars, prev, *ys):
             prev_o = prev.view(GArr)
             _, prev_f = const_prev(n)
             ords = (regime, phase, fabric)
@@ -803,7 +862,8 @@ def translations():
 
             try:
                 F_ret = with_lsoda(_LoopLSODA, lambda: m.update_orientations(
-                    plain_params(chi), _garr(_np.eye(3)), zero_L, (0.0, 1.0, lambda t: None)))
+                    plain_params(chi, [pars[i] for i in range(5)]), _garr(_np.eye(3)), zero_L,
+                    (0.0, 1.0, lambda t: None)))
             except pm._err.IterationError:
                 try:
                     check_hist(m, decoy, prev_o, prev_f, grown=False, ords=ords)
@@ -894,7 +954,7 @@ def translations():
     #      fail == j: the integrator of mineral j fails -> the exception leaves update_all; the adapter
     #      verifies that minerals before j were updated and minerals from j on are untouched.
     def mk_update_all(n, K):
-        def update_all_n(fail, regime, phase, fabric, chi, Fd, *rest):
+        def update_all_n(fail, regime, phase, fabric, chi, pars, Fd, *rest):
             prevs = [(rest[2 * i].view(GArr), rest[2 * i + 1].view(GArr)) for i in range(K)]
             vecs = [rest[2 * K + i].copy().view(GArr) for i in range(K)]
             ords = (regime, phase, fabric)
@@ -924,9 +984,10 @@ def translations():
                     return None
 
             def call():
+                pp = plain_params(chi, [pars[i] for i in range(5)])
                 if K == 0:
-                    return pm.update_all([], plain_params(chi), Fg, zero_L, (0.0, 1.0, lambda t: None))
-                return pm.update_all(ms, plain_params(chi), Fg, zero_L, (0.0, 1.0, lambda t: None))
+                    return pm.update_all([], pp, Fg, zero_L, (0.0, 1.0, lambda t: None))
+                return pm.update_all(ms, pp, Fg, zero_L, (0.0, 1.0, lambda t: None))
 
             try:
                 F_ret = with_lsoda(_BulkLSODA, call)
@@ -1043,7 +1104,7 @@ def translations():
                      f"k_eval_rhs_n{n}_a{tag}")
             names.append(f"eval_rhs_n{n}_a{tag}")
         register(f"update_n{n}", mk_update(n),
-                 [("chi", S, None), ("prev", "arr", (n, 3, 3)), ("y", "arr", (ny,))],
+                 [("chi", S, None), ("pars", "arr", (5,)), ("prev", "arr", (n, 3, 3)), ("y", "arr", (ny,))],
                  f"k_update_n{n}")
         names.append(f"update_n{n}")
     # ---- the driver around the integrator
@@ -1051,18 +1112,18 @@ def translations():
     for n in N_GRAINS:
         ny = 9 + 10 * n
         register(f"lsoda_args_n{n}", mk_lsoda_args(n),
-                 ORDS + [("Fd", "arr", (3, 3)), ("prev_o", "arr", (n, 3, 3)), ("prev_f", "arr", (n,)),
+                 ORDS + [("pars", "arr", (6,)), ("Fd", "arr", (3, 3)), ("prev_o", "arr", (n, 3, 3)), ("prev_f", "arr", (n,)),
                          ("t0", S, None), ("t1", S, None)], f"k_lsoda_args_n{n}")
         names.append(f"lsoda_args_n{n}")
         for msteps in LOOP_STEPS[n]:
             register(f"update_loop_n{n}_m{msteps}", mk_update_loop(n, msteps),
-                     [("fail", "enum", None)] + ORDS + [("chi", S, None), ("prev", "arr", (n, 3, 3))]
+                     [("fail", "enum", None)] + ORDS + [("chi", S, None), ("pars", "arr", (5,)), ("prev", "arr", (n, 3, 3))]
                      + [(f"y{j + 1}", "arr", (ny,)) for j in range(msteps)],
                      f"k_update_loop_n{n}_m{msteps}")
             names.append(f"update_loop_n{n}_m{msteps}")
         for K in BULK_SIZES[n]:
             register(f"update_all_n{n}_k{K}", mk_update_all(n, K),
-                     [("fail", "enum", None)] + ORDS + [("chi", S, None), ("Fd", "arr", (3, 3))]
+                     [("fail", "enum", None)] + ORDS + [("chi", S, None), ("pars", "arr", (5,)), ("Fd", "arr", (3, 3))]
                      + [x for i in range(K) for x in ((f"o{i + 1}", "arr", (n, 3, 3)), (f"f{i + 1}", "arr", (n,)))]
                      + [(f"y{i + 1}", "arr", (ny,)) for i in range(K)],
                      f"k_update_all_n{n}_k{K}")
@@ -1071,6 +1132,11 @@ def translations():
         register(f"init_user_n{n}", mk_init_user(n), [("o", "arr", (n, 3, 3)), ("f", "arr", (n,))],
                  f"k_init_user_n{n}")
         names += [f"init_default_n{n}", f"init_user_n{n}"]
+    register("update_args_n1", mk_update_args(1),
+             [("bad", "enum", None)] + ORDS + [("pars", "arr", (6,)), ("Fd", "arr", (3, 3)), ("prev_o", "arr", (1, 3, 3)),
+                                               ("prev_f", "arr", (1,)), ("t0", S, None), ("t1", S, None)],
+             "k_update_args_n1")
+    names.append("update_args_n1")
     register("lsoda_args_user_n1", mk_lsoda_args_user(1),
              [("Fd", "arr", (3, 3)), ("prev_o", "arr", (1, 3, 3)), ("prev_f", "arr", (1,)),
               ("t0", S, None), ("t1", S, None), ("uatol", S, None), ("urtol", S, None),
